@@ -247,6 +247,13 @@ pub fn reference<T: HScalar>(case: &Value, a: &DVector<T>) -> Value {
     let (wrap, _shared) = Wrap::new(AnyModel::new(&spec), FaultPlan::default());
     let bops = parse_bops::<T>(&case["build"]);
     let ctor = case["ctor"].as_str().unwrap();
+    // "ref_sequential": the freshly built problem is of the SEQUENTIAL flavour whatever the flavour of the problem under test (a
+    // fresh parallel problem in the same thread pool would share whatever the scheduling does to the problem under test)
+    let ctor = if case.get("ref_sequential").and_then(|b| b.as_bool()).unwrap_or(false) {
+        ctor.trim_end_matches("_parallel")
+    } else {
+        ctor
+    };
     macro_rules! go {
         ($f:ident) => {
             match $f(wrap, &bops) {
